@@ -1,14 +1,183 @@
 /-
-  Driver.C15 — line protocol front end for property C15 (stub: not built yet).
+  Driver.C15 — line protocol for tape clear/reset cycles and cross-tape misuse (scalar records,
+  element type Fp, one or two WengertLists).
+
+    @ tapes <n>                       new case with n tapes                              → ok
+    var a3 <num> t=<tape>             Record::variable on that tape
+    const c4 <num>   and every instruction line of Driver/Prog.lean
+                                      → v=<value> const=<0|1> idx=<index>
+                                      | panic(explicit)          (operands of two different tapes)
+    derivs <r>                        → len=<entries> full=<vector> fresh=ok|skip  | panic(<kind>)
+    clear t=<tape>                    WengertList::clear                                 → ok
+    reset <r>                         Record::reset / do_reset   → idx=<index> const=<0|1>
+
+  `idx` is checked against "the number of entries on the tape before the operation" (the next
+  unused position), `len` against the tape length.  `fresh`: beside the tapes of the case the
+  driver (like the harness) keeps *shadow* tapes — a brand-new tape for every clear — on which
+  the live records are re-created in reset order and every operation is repeated; the derivative
+  vector must equal the shadow's.  `skip` when the computation involves a record that was not
+  reset after a clear (misuse: the shadow has no counterpart), see `Info`.
 -/
-import Driver.Parse
+import Driver.Prog
 
 namespace Driver.C15
+open EasyMl EasyMl.Spec Driver
 
-abbrev State := Unit
+structure Info where
+  /-- epoch (number of clears) of the record's tape when it was created / last reset -/
+  epoch : Nat
+  /-- the record descends from a record used after a clear without reset -/
+  tainted : Bool
 
-def init : State := ()
+structure State where
+  ntapes : Nat := 0
+  w : World Fp := World.empty
+  sw : World Fp := World.empty
+  recs : List (Rec Fp) := []
+  shadow : List (Rec Fp) := []
+  info : List Info := []
+  names : Names := []
+  epoch : List Nat := []
+  tainted : List Bool := []
 
-def step (s : State) (_toks : List String) : State × String := (s, "unimplemented")
+def init : State := {}
+
+/-- id of the shadow tape of tape `t` in epoch `e` -/
+def shadowId (t e : Nat) : Nat := (e + 1) * 16 + t
+
+def State.epochOf (s : State) (t : Nat) : Nat := s.epoch.getD t 0
+def State.taintedTape (s : State) (t : Nat) : Bool := s.tainted.getD t false
+
+def State.stale (s : State) (k : Nat) : Bool :=
+  match (getRec s.recs k).history with
+  | none => false
+  | some t => (s.info.getD k ⟨0, false⟩).epoch != s.epochOf t
+
+/-- may slot `k` not be mirrored on the shadow tapes -/
+def State.bad (s : State) (k : Nat) : Bool :=
+  s.stale k || (s.info.getD k ⟨0, false⟩).tainted ||
+    match (getRec s.recs k).history with
+    | none => false
+    | some t => s.taintedTape t
+
+def State.taint (s : State) (ts : List Nat) : State :=
+  { s with tainted := (List.range s.ntapes).map fun t => s.taintedTape t || ts.contains t }
+
+def tapesOf (s : State) (ks : List Nat) : List Nat :=
+  (ks.filterMap fun k => (getRec s.recs k).history).eraseDups
+
+def showRec (r : Rec Fp) : String :=
+  s!"v={r.number.val} const={if r.isConstant then 1 else 0} idx={r.index}"
+
+def isSum : Instr Fp → Bool
+  | .sum _ => true
+  | _ => false
+
+def stepInstr (s : State) (name : String) (ins : Instr Fp) (x : Option Fp) (h : Nat) : State × String :=
+  let env : Nat → Fp := fun _ => x.getD 0
+  let ops := ins.operands
+  let opTapes := tapesOf s ops
+  let cross := opTapes.length > 1
+  let bad := ops.any s.bad || (ins.isVar && s.taintedTape h)
+  let lenBefore := fun (w : World Fp) (r : Rec Fp) => match r.history with
+    | some t => (w t).length
+    | none => 0
+  let (w', out) := ins.exec h env s.recs s.w
+  match out with
+  | .panic k =>
+    -- only `Sum` can have appended entries before it panicked
+    let s := if isSum ins then s.taint opTapes else s
+    ({ s with w := w' }, s!"panic({k})")
+  | .ok r =>
+    let pos := s.recs.length
+    -- the next unused position: tape length before the operation (a sum appends one entry per
+    -- term from its first variable on, its result sits in the last one)
+    let expectIdx := if isSum ins then lenBefore w' r - 1 else lenBefore s.w r
+    let idxOk := r.isConstant || r.index == expectIdx
+    let epochR := match r.history with
+      | some t => s.epochOf t
+      | none => 0
+    if cross || bad then
+      let s := s.taint (opTapes ++ (if ins.isVar then [h] else []))
+      ({ s with w := w', recs := s.recs ++ [r], shadow := s.shadow ++ [Rec.constant 0],
+                info := s.info ++ [⟨epochR, true⟩], names := (name, pos) :: s.names },
+       C04Flag idxOk (showRec r))
+    else
+      let (sw', sout) := ins.exec (shadowId h (s.epochOf h)) env s.shadow s.sw
+      let sr := match sout with
+        | .ok sr => sr
+        | .panic _ => Rec.constant 0
+      let same := sr.number == r.number && sr.index == r.index && sr.isConstant == r.isConstant
+      ({ s with w := w', sw := sw', recs := s.recs ++ [r], shadow := s.shadow ++ [sr],
+                info := s.info ++ [⟨epochR, false⟩], names := (name, pos) :: s.names },
+       C04Flag (idxOk && same) (showRec r))
+where
+  C04Flag (ok : Bool) (s : String) : String := if ok then s else s ++ " MODEL-SPEC-DISAGREE"
+
+def stepDerivs (s : State) (k : Nat) : String :=
+  let r := getRec s.recs k
+  match r.derivatives s.w with
+  | .panic kind => s!"panic({kind})"
+  | .ok full =>
+    let lenOk := match r.history with
+      | some t => full.length == (s.w t).length
+      | none => false
+    let fresh :=
+      if s.bad k then "skip"
+      else match (getRec s.shadow k).derivatives s.sw with
+        | .ok sfull => if beqList sfull full then "ok" else "DIFF MODEL-SPEC-DISAGREE"
+        | .panic _ => "DIFF MODEL-SPEC-DISAGREE"
+    s!"len={full.length} full={renderList full} fresh={fresh}" ++
+      (if lenOk then "" else " MODEL-SPEC-DISAGREE")
+
+def stepReset (s : State) (k : Nat) : State × String :=
+  let r := getRec s.recs k
+  match r.history with
+  | none => (s, s!"idx={r.index} const=1")
+  | some t =>
+    let lenBefore := (s.w t).length
+    let (r', w') := r.reset s.w
+    let inf := s.info.getD k ⟨0, false⟩
+    let e := s.epochOf t
+    let (sr, sw', tainted) :=
+      if s.taintedTape t then (Rec.constant 0, s.sw, true)
+      else if inf.epoch == e && !inf.tainted then
+        let (sr, sw') := (getRec s.shadow k).reset s.sw
+        (sr, sw', false)
+      else
+        let (sr, sw') := Rec.mkVar r.number (shadowId t e) s.sw
+        (sr, sw', false)
+    let ok := r'.index == lenBefore && (tainted || sr.index == r'.index)
+    ({ s with w := w', sw := sw', recs := s.recs.set k r', shadow := s.shadow.set k sr,
+              info := s.info.set k ⟨e, tainted⟩ },
+     s!"idx={r'.index} const=0" ++ (if ok then "" else " MODEL-SPEC-DISAGREE"))
+
+def step (s : State) (toks : List String) : State × String :=
+  match toks with
+  | "@" :: "tapes" :: n :: _ =>
+    match n.toNat? with
+    | some n => ({ ntapes := n, epoch := List.replicate n 0, tainted := List.replicate n false }, "ok")
+    | none => (s, "bad-op")
+  | "clear" :: rest =>
+    match (optArg "t" rest).bind String.toNat? with
+    | some t =>
+      ({ s with w := s.w.clear t, epoch := s.epoch.set t (s.epochOf t + 1),
+                tainted := s.tainted.set t false }, "ok")
+    | none => (s, "bad-op")
+  | "derivs" :: r :: _ =>
+    match s.names.find r with
+    | some k => (s, stepDerivs s k)
+    | none => (s, "bad-ref")
+  | "reset" :: r :: _ =>
+    match s.names.find r with
+    | some k => stepReset s k
+    | none => (s, "bad-ref")
+  | _ :: name :: rest =>
+    match parseInstr (R := Fp) s.names toks with
+    | some (ins, x) =>
+      let h := ((optArg "t" rest).bind String.toNat?).getD 0
+      stepInstr s name ins x h
+    | none => (s, if knownOp toks then "bad-ref" else "bad-op")
+  | _ => (s, "bad-op")
 
 end Driver.C15
